@@ -18,7 +18,9 @@ import (
 
 var c19Tags = []string{".", "@x", "a", "a/b", "count(a)", "'s'", "1 div 0", "0 div 0", "//b", "$v", "$unbound", "((", "name()", "position()", "last()", "..", "string-length(.)", "-1.5", "300", "true()", "*", "node()", "a[1]", "''", "-7", "70000", "2.5", "1e3", "text()", "$ns"}
 
-type c19Leaf struct{ S string `xsel:"."` }
+type c19Leaf struct {
+	S string `xsel:"."`
+}
 type c19Leaf2 struct {
 	N string `xsel:"name()"`
 	C int    `xsel:"count(*)"`
